@@ -497,7 +497,9 @@ func (cs *crashRun) runVictim(dir, out string, inject int, errno int, short bool
 func (crashsim) Run(t *testing.T, s *Script) *Result {
 	res := &Result{Stats: map[string]int64{}}
 	root := newRunDir()
-	defer os.RemoveAll(root)
+	if os.Getenv("VERIF_KEEP") == "" {
+		defer os.RemoveAll(root)
+	}
 	cs := &crashRun{t: t, s: s, res: res, test: s.Ops[len(s.Ops)-1], root: root}
 	cs.kind = strings.TrimPrefix(cs.test.K, "T:")
 	if os.Getenv("VERIF_CRASHSUP") == "" {
@@ -586,6 +588,19 @@ func (cs *crashRun) run() {
 			if itr == nil || icode == 2 || !itr.Began {
 				cs.res.Infra = fmt.Sprintf("inject run failed (code %d): %s", icode, itail)
 				return
+			}
+			// the victim's system-call sequence is deterministic except for the number of
+			// data writes of a coalesce (extent layout): the injected call must be the one intended
+			rel := func(p, root string) string {
+				if p == root {
+					return "."
+				}
+				return filepath.Base(p)
+			}
+			if len(itr.Calls) >= k && (itr.Calls[k-1].Name != c.Name || rel(itr.Calls[k-1].Path, idir) != rel(c.Path, dir)) {
+				cs.res.stat("injection_skipped_trace_diverged", 1)
+				cs.res.stat(fmt.Sprintf("diverged_%s_%s_vs_%s_%s", cs.kind, c.Name, itr.Calls[k-1].Name, strings.TrimLeft(filepath.Ext(itr.Calls[k-1].Path), ".")), 1)
+				continue
 			}
 			what := fmt.Sprintf("%s: call %d/%d (%s %s) failed with errno %d short=%v", cs.kind, k, n, c.Name, filepath.Base(c.Path), kd.errno, kd.short)
 			cs.res.stat("injections", 1)
@@ -682,6 +697,16 @@ func (cs *crashRun) judgeCrashState(sd, what string, before, after *dirState, en
 // judgeFinal: the operation returned; `want` is the state it must now be in.
 func (cs *crashRun) judgeFinal(dir, what string, fin, want, other *dirState, success bool) {
 	if !fin.ok {
+		if os.Getenv("VERIF_DEBUG") != "" {
+			ents, _ := os.ReadDir(dir)
+			for _, e := range ents {
+				b, _ := os.ReadFile(filepath.Join(dir, e.Name()))
+				if len(b) > 300 {
+					b = b[:0]
+				}
+				fmt.Fprintf(os.Stderr, "DEBUG %s: %s %q\n", what, e.Name(), b)
+			}
+		}
 		if success {
 			cs.viol("success-reported-over-damaged-metadata", "%s, but the directory is unreadable: %s", what, fin.err)
 		} else {
